@@ -26,6 +26,12 @@
        session it has closed.)  A log without Close Session satisfies (C) trivially.
   Datagram numbers are positions: the n-th transmitted datagram has serial n (checked), so a
   serial names exactly one datagram.
+
+  One more clause is judged on the same log although it is worded in property C04 ("consecutive requests
+  carry different sequence numbers", whose quantifier names schedules):
+   (Q) the IPMB request sequence number `rq` of every transmitted datagram differs from that of the
+       datagram transmitted before it — by whichever thread.  It is what keeps a LATE reply (one that
+       arrives after its request timed out) from being taken for the answer to the next request.
 -/
 namespace PyIpmi.Spec.Threads
 
@@ -89,6 +95,15 @@ def exchangesOk (wire : List WEv) : Bool := (monitor wire).exch
 def seqIncreasing (wire : List WEv) : Bool := (monitor wire).incr
 /-- Clause (C). -/
 def closeLast (wire : List WEv) : Bool := (monitor wire).after
+
+/-- Clause (Q), with the request sequence number of the previous transmission as state. -/
+def rqDistinctFrom : Option Nat → List WEv → Bool
+  | _, [] => true
+  | last, .tx _ _ _ r _ :: w => (last != some r) && rqDistinctFrom (some r) w
+  | last, .rx _ _ :: w => rqDistinctFrom last w
+
+/-- Clause (Q) on a chronological wire log. -/
+def rqDistinct (wire : List WEv) : Bool := rqDistinctFrom none wire
 
 /-- The property oracle: all clauses on a chronological wire log and the results. -/
 def accepts (wire : List WEv) (rs : List Res) : Bool :=
